@@ -883,7 +883,7 @@ theorem C05_points_exact_mid (lib : String → Pt) (b : Bounds) (pos : String) (
   · rw [t9, s9]
 
 /-- a monotone rounding function that leaves `a` and `c` alone keeps the midpoint inside `[a, c]` -/
-theorem rounded_mid_inside (rnd : Rat → Rat) (hm : ∀ x y, x ≤ y → rnd x ≤ rnd y) (a c : Rat)
+theorem C05_midpoint_rounded (rnd : Rat → Rat) (hm : ∀ x y, x ≤ y → rnd x ≤ rnd y) (a c : Rat)
     (fa : rnd a = a) (fc : rnd c = c) (h : a ≤ c) : a ≤ rnd ((a + c) / 2) ∧ rnd ((a + c) / 2) ≤ c := by
   have h1 : a ≤ (a + c) / 2 := by grind
   have h2 : (a + c) / 2 ≤ c := by grind
@@ -905,8 +905,8 @@ theorem C05_points_rounded (rnd : Rat → Rat) (hm : ∀ x y, x ≤ y → rnd x 
     ∃ p, pointAtM (rnd ((b.st + b.en) / 2)) (rnd ((b.lo + b.hi) / 2)) pos b = .ok p ∧ inside b p = true := by
   obtain ⟨s1, s2, s3, s4, s5, s6, s7, s8, s9⟩ :=
     C05_points_selection (rnd ((b.st + b.en) / 2)) (rnd ((b.lo + b.hi) / 2)) b
-  obtain ⟨m1, m2⟩ := rounded_mid_inside rnd hm b.st b.en f1 f2 h1
-  obtain ⟨m3, m4⟩ := rounded_mid_inside rnd hm b.lo b.hi f3 f4 h2
+  obtain ⟨m1, m2⟩ := C05_midpoint_rounded rnd hm b.st b.en f1 f2 h1
+  obtain ⟨m3, m4⟩ := C05_midpoint_rounded rnd hm b.lo b.hi f3 f4 h2
   rw [mem_boundsPositions] at hp
   rcases hp with rfl | rfl | rfl | rfl | rfl | rfl | rfl | rfl | rfl
   · exact ⟨_, s1, by simp [inside]; grind⟩
@@ -945,17 +945,6 @@ theorem C05_anchor_holds_sound (tol : Rat) (b : Bounds) (pos : String) (p : Pt)
   · rintro (rfl | rfl) <;> simpa [freqIsMid] using hf
   · rintro (rfl | rfl) <;> simpa [timeIsMid] using ht
   · rintro rfl; exact ⟨by simpa [timeIsMid] using ht, by simpa [freqIsMid] using hf⟩
-
-/-- the exact midpoint passes `nearMid` for every non-negative tolerance -/
-theorem nearMid_exact (tol a c : Rat) (ht : 0 ≤ tol) (h : a ≤ c) : nearMid tol a c ((a + c) / 2) = true := by
-  have h0 : (a + c) / 2 - (a + c) / 2 = 0 := by grind
-  have h1 : a ≤ (a + c) / 2 := by grind
-  have h2 : (a + c) / 2 ≤ c := by grind
-  have h3 : (0 : Rat) ≤ max (if a < 0 then -a else a) (if c < 0 then -c else c) := by
-    have : (0 : Rat) ≤ (if a < 0 then -a else a) := by split <;> grind
-    grind
-  simp only [nearMid, h0, h1, h2, decide_true, Bool.true_and, decide_eq_true_eq]
-  simpa using Rat.mul_nonneg ht h3
 
 /-- the model's own answer passes the monitor (`∀ x, holds x (model x)`): the monitor demands
     nothing the property does not state -/
